@@ -5,6 +5,8 @@ import (
 	"context"
 	"crypto/sha256"
 	"fmt"
+	"github.com/crate-crypto/go-ipa/bandersnatch"
+	"github.com/crate-crypto/go-ipa/bandersnatch/fp"
 	"github.com/crate-crypto/go-ipa/common/parallel"
 	"math/big"
 	"os"
@@ -221,6 +223,29 @@ func c12Ops() []c12op {
 				}
 			}, 3)
 			return fmt.Sprint(hits)
+		}},
+		{"fp.SqrtPrecomp / bandersnatch.GetPointFromX (both roots)", false, func(c *ipa.IPAConfig, seed int64, slot int) string {
+			v := fpFromBig(bi(int64(1234567+slot) * int64(1234567+slot)))
+			x := fpFromBig(bi(int64(3 + 4*slot))) // 3 and 7 are abscissae of curve points
+			r := fp.SqrtPrecomp(&v)
+			// the same abscissa several times in a row (memoised implementations answer the repeats differently)
+			p1 := bandersnatch.GetPointFromX(&x, true)
+			p2 := bandersnatch.GetPointFromX(&x, true)
+			p3 := bandersnatch.GetPointFromX(&x, false)
+			p4 := bandersnatch.GetPointFromX(&x, false)
+			r2 := fp.SqrtPrecomp(&v)
+			out := fmt.Sprint(r != nil, p1 != nil, p2 != nil, p3 != nil, p4 != nil, r2 != nil && r != nil && r2.Equal(r))
+			if r != nil {
+				var sq fp.Element
+				sq.Square(r)
+				out += fmt.Sprint(sq.Equal(&v))
+			}
+			for _, p := range []*bandersnatch.PointAffine{p1, p2, p3, p4} {
+				if p != nil {
+					out += p.X.String() + "," + p.Y.String() + ";"
+				}
+			}
+			return out
 		}},
 		{"CreateMultiProof(n=5 and n=17: more openings than workers)", true, func(c *ipa.IPAConfig, seed int64, slot int) string {
 			polys := polyAlphabet(seed)
